@@ -33,10 +33,16 @@ class C20(Prop):
         "NV.C20.tie_export_error", "NV.C20.tie_export_target", "NV.C20.tie_export_assign",
         "NV.C20.tie_seteuid_shape", "NV.C20.tie_seteuid_verdict", "NV.C20.tie_seteuid_null_verdict",
         "NV.C20.tie_giveuid_shape",
+        # round 5: inventory of every uid/euid write in the driver; interleaved statement order of the anchor functions
+        "NV.C20.tie_uid_writes_governed", "NV.C20.tie_uid_write_inventory", "NV.C20.tie_uid_rules_all_used",
+        "NV.C20.tie_seteuid_order", "NV.C20.tie_export_order", "NV.C20.tie_set_master_shape", "NV.C20.tie_reload_shape",
+        "NV.C20.tie_load_tail_shape", "NV.C20.tie_clone_shape", "NV.C20.tie_init_object_shape", "NV.C20.tie_load_virtual_shape",
     ]
     consts = [("autoTrustBackbone", "NV_AUTO_TRUST_BACKBONE"), ("autoSeteuid", "NV_AUTO_SETEUID"),
-              ("tNumber", "T_NUMBER"), ("tString", "T_STRING"), ("msMudlibLimbo", "MS_MUDLIB_LIMBO")]
-    const_headers = ["lib/efuns/options.h", "lpc/types.h", "src/simulate.h"]
+              ("tNumber", "T_NUMBER"), ("tString", "T_STRING"), ("msMudlibLimbo", "MS_MUDLIB_LIMBO"),
+              ("tObject", "T_OBJECT"), ("oDestructed", "O_DESTRUCTED"), ("oClone", "O_CLONE"), ("oVirtual", "O_VIRTUAL"),
+              ("oHeartBeat", "O_HEART_BEAT")]
+    const_headers = ["lib/efuns/options.h", "lpc/types.h", "lpc/object.h", "src/simulate.h"]
     const_prelude = ("#ifdef AUTO_TRUST_BACKBONE\n#define NV_AUTO_TRUST_BACKBONE 1\n#else\n#define NV_AUTO_TRUST_BACKBONE 0\n#endif\n"
                      "#ifdef AUTO_SETEUID\n#define NV_AUTO_SETEUID 1\n#else\n#define NV_AUTO_SETEUID 0\n#endif\n")
     quick_n = 400
@@ -98,12 +104,47 @@ class C20(Prop):
         tn = X.probe_values(bdir, [("tNumber", "T_NUMBER")], ["lpc/types.h"])["tNumber"]
         return c20_extract.generate(bdir, tn)
 
+    # ---- configurations: which verification master / simul_efun object a case runs under (`cfg` first line) ----
+    CFG_FLAGS = ("nobb", "noroot", "simul")
+
+    @staticmethod
+    def cfg_key(case):
+        for l in case.lines:
+            t = l.split()
+            if t and t[0] == "cfg":
+                return tuple(f for f in C20.CFG_FLAGS if f in t[1:])
+            if t and not l.startswith("#"):
+                break
+        return ()
+
     def prepare(self, ctx):
         self.exe = E.compile_harness("c20", [os.path.join(E.VERIF, "harness/c20/c20.c")])
         self.conf = E.make_mudlib(ctx.rundir, master="/c20/master.c")
+        base = open(self.conf).read()
+        self.confs = {(): self.conf}
+        for n in range(1, 8):
+            key = tuple(f for i, f in enumerate(self.CFG_FLAGS) if n >> i & 1)
+            t = base
+            master = "/c20/master" + ("_nobb" if "nobb" in key else "") + ("_noroot" if "noroot" in key else "") + ".c"
+            t = t.replace("/c20/master.c", master)
+            if "simul" in key:
+                t2 = re.sub(r"(?m)^(SimulEfunFile\s+)\S+", r"\g<1>/c20/simul.c", t)
+                if t2 == t:
+                    raise RuntimeError("base.conf.in has no SimulEfunFile line")
+                t = t2
+            path = os.path.join(ctx.rundir, "verif-%s.conf" % "-".join(key))
+            with open(path, "w") as f:
+                f.write(t)
+            self.confs[key] = path
 
     def run_impl(self, ctx, cases):
-        return E.run_harness(self.exe, self.conf, cases, ctx.rundir)
+        groups = {}
+        for c in cases:
+            groups.setdefault(self.cfg_key(c), []).append(c)
+        out = {}
+        for key in sorted(groups):
+            out.update(E.run_harness(self.exe, self.confs[key], groups[key], ctx.rundir))
+        return out
 
     def canon(self, lines):
         out = []
@@ -240,6 +281,31 @@ class C20(Prop):
                                  "do u1a via,m,load,/c20/bb/a"])
         mk("funptr-in-create", ["script /c20/u2/a via,u1a,load,/c20/u2/b;via,u2a,load,/c20/u2/c;load,/c20/u2/c",
                                 "do m load,/c20/u1/a", "do u1a seteuid,s:u1", "do u1a load,/c20/u2/a"])
+        # ---- round 5: other configurations of the mudlib (first line `cfg ...`) ---------------------------------------
+        # master without get_bb_uid(): set_master sets no backbone uid, a "Backbone" answer is an ordinary name
+        mk("cfg-nobb", ["cfg nobb", "do m load,/c20/bb/a", "do bba seteuid,s:u1", "do bba clone,c1,/c20/bb/b", "pol cf u1 s:Backbone",
+                        "do bba load,/c20/u1/a", "do bba seteuid,s:Backbone", "do bba load,/c20/bb/c", "do m dest,m", "do m load,/c20/bb/b"])
+        # master without get_root_uid(): it keeps "NONAME" / 0 from before the master existed, is still exempt from the tests
+        mk("cfg-noroot", ["cfg noroot", "do m load,/c20/u1/a", "do m load,/c20/bb/a", "do m clone,c1,/c20/odd/a", "do m export,u1a",
+                          "pol vs m * i:1", "do m seteuid,s:Root", "do m load,/c20/bb/b", "do m export,u1a", "do m seteuid,i:0",
+                          "do u1a seteuid,s:u1", "do u1a dest,m", "do m dest,m", "do m load,/c20/bb/c", "pol cf u2 s:NONAME",
+                          "do m load,/c20/u2/a"])
+        mk("cfg-nobb-noroot", ["cfg nobb noroot", "do m load,/c20/bb/a", "do m seteuid,s:Backbone", "do m load,/c20/bb/b",
+                               "do bbb seteuid,s:x9", "do bbb clone,c1,/c20/bb/c", "do m dest,m"])
+        # the simul_efun object as actor: "NONAME" / 0 from before the master existed, no exemption in load / clone
+        mk("cfg-simul", ["cfg simul", "do se load,/c20/u1/a", "do se clone,c1,/c20/u1/a", "do m load,/c20/u2/a", "do se load,/c20/u2/a",
+                         "do se export,u2a", "do se seteuid,s:u1", "do se load,/c20/u1/a", "do se clone,c1,/c20/u1/b",
+                         "do se export,u2a", "do se seteuid,i:0", "do m export,se", "do se seteuid,s:zed", "do m export,se",
+                         "do m dest,se", "do se dest,se", "do u1a dest,se", "do m reload,se", "do se load,/c20/u1/c",
+                         "do se seteuid,s:x9", "do u1a via,se,load,/c20/u1/c", "do se via,u1a,load,/c20/bb/a",
+                         "do se clone,se,/c20/u1/a", "do m clone,se,/c20/u1/a", "do se load,/c20/odd/a", "do se load,/c20/bb/a",
+                         "do se dest,m", "do se seteuid,i:0", "do se dest,m"])
+        mk("cfg-simul-script", ["cfg simul", "script /c20/simul seteuid,s:zed;load,/c20/u2/a;dest,se;reload,se",
+                                "script /c20/u2/a reload,se;export,se", "do m reload,se", "do se reload,se", "do m load,/c20/u2/b",
+                                "pol vs se * i:0", "do u2b reload,se"])
+        mk("cfg-all", ["cfg nobb noroot simul", "do se seteuid,s:Backbone", "do se load,/c20/bb/a", "do m load,/c20/bb/b",
+                       "do bba export,se", "do se export,m", "do m dest,m", "do se dest,m", "pol cf odd i:0", "do m load,/c20/odd/a",
+                       "do se seteuid,i:0", "do se load,/c20/odd/b"])
         return B
 
     def gen_scripts(self, rng):
@@ -284,6 +350,14 @@ class C20(Prop):
         operations effective - it only steers choices, the expected behaviour always comes from the model"""
         lines = []
         objs = {"m": True}            # oid -> probably has an euid
+        # one case in four runs under another configuration (master variants, simul_efun object as actor `se`)
+        if rng.chance(1, 4):
+            flags = [f for f in self.CFG_FLAGS if rng.chance(1, 2)] or [rng.choice(list(self.CFG_FLAGS))]
+            lines.append("cfg " + " ".join(flags))
+            if "simul" in flags:
+                objs["se"] = False
+            if "noroot" in flags:
+                objs["m"] = False
         nclone = [0]
         nv = [0]
         refuse_default = rng.chance(1, 4)
@@ -413,8 +487,10 @@ class C20(Prop):
              "seteuid_zero": 0, "export_ok": 0, "export_refused": 0, "export_error": 0, "noeuid_load_error": 0,
              "noeuid_clone_error": 0, "compile_object_calls": 0, "virtual_handed_out": 0, "funptr_ops": 0, "funptr_noeuid_refused": 0,
              "master_reloads": 0, "master_reload_refused": 0, "export_onto_self": 0, "nested_ops": 0, "nested_creations": 0, "nested_noeuid_refused": 0, "max_nesting": 0, "backbone_grants": 0, "policy_errors": 0, "nobj": 0, "reloads": 0,
-             "crash": 0}
+             "crash": 0, "cfg_nobb": 0, "cfg_noroot": 0, "cfg_simul": 0, "simul_actor_ops": 0, "simul_dest_error": 0}
         for c in cases:
+            for f in self.cfg_key(c):
+                h["cfg_" + f] += 1
             cur = None
             pend_cf = None
             stack = []
@@ -424,6 +500,8 @@ class C20(Prop):
                     continue
                 if t[0] == "do":
                     h["steps"] += 1
+                    if t[1] == "se":
+                        h["simul_actor_ops"] += 1
                     if len(t) > 2 and t[2] == "export," + t[1]:
                         h["export_onto_self"] += 1
                     stack.append(cur)
@@ -470,6 +548,8 @@ class C20(Prop):
                         h["noeuid_load_error"] += 1
                     if "without_effective_UID" in r:
                         h["noeuid_clone_error"] += 1
+                    if "Cannot_destruct_simul" in r:
+                        h["simul_dest_error"] += 1
                     if "policy_error" in r:
                         h["policy_errors"] += 1
                     if r == "nobj":
